@@ -461,6 +461,16 @@ func C01(c *core.Ctx) {
 		keep = 1
 	}
 	c01MatchField(c, keep)
+	// signature and hook families: every accepted combination must compile
+	sc := sigCases(c)
+	st := b1.Run(c, b1.Options{Name: "sigc01", PerFile: 40, Family: "signature", Compile: true}, sc,
+		compileJudge(func(r *b1.Result) string { return "signature " + sigDescribe(r.Case.Data.(*sigCase)) }))
+	c.AddCount("programs", int64(st.Functions))
+	hc := hookCases(c)
+	st = b1.Run(c, b1.Options{Name: "hookc01", PerFile: 40, Family: "hooks", Compile: true}, hc,
+		compileJudge(func(r *b1.Result) string { return hookDescribe(r.Case.Data.(*hookCase)) }))
+	c.AddCount("programs", int64(st.Functions))
+	c.Sample(map[string]any{"family": "hooks", "method": hc[len(hc)/2].Method, "notations": hc[len(hc)/2].Notes, "decls": hc[len(hc)/2].Decls})
 	c.Set("disagreements_checked", c.ViolationCount())
 	c.Set("exhaustive", false)
 	c.Set("rule", "programs = generated functions whose package was compiled by the Go toolchain (ordinary build, setup file excluded by its tag, output included) and whose file was checked with gofmt -l; the program space is enumerated by TLC from the matching/signature/hook models; non-trivial = functions with at least one statement besides allocation and return")
